@@ -424,3 +424,52 @@ func (r *Rng) Perm(n int) []int {
 	}
 	return p
 }
+
+// ReplayJob: a stretch of recorded ABCI calls for a child process to execute on a database directory (a real process
+// start in the middle of a history: everything the program keeps outside the database starts from scratch).
+type ReplayJob struct {
+	Dir     string
+	Genesis []byte
+	T0      time.Time
+	Ops     []Op
+	Init    bool // first stretch: InitChain before the calls
+}
+
+// RunReplayJob executes the job in this process and returns the observed results of its calls.
+func RunReplayJob(j ReplayJob) []Op {
+	db, err := dbm.NewGoLevelDB("application", j.Dir)
+	if err != nil {
+		panic(err)
+	}
+	defer db.Close()
+	app := newApp(db)
+	if j.Init {
+		app.InitChain(abci.RequestInitChain{Time: j.T0, Validators: []abci.ValidatorUpdate{}, ConsensusParams: consensusParams, AppStateBytes: j.Genesis})
+		app.Commit()
+	}
+	out := make([]Op, len(j.Ops))
+	for i, o := range j.Ops {
+		r := o
+		r.Code, r.Data, r.GasW, r.GasU, r.Hash, r.Panic, r.Tx = 0, nil, 0, 0, nil, false, nil
+		func() {
+			defer func() {
+				if rec := recover(); rec != nil {
+					r.Panic = true
+				}
+			}()
+			switch o.Kind {
+			case 1:
+				app.BeginBlock(abci.RequestBeginBlock{Header: tmproto.Header{Height: o.Height, Time: o.Time, ChainID: ""}})
+			case 2:
+				res := app.DeliverTx(abci.RequestDeliverTx{Tx: o.Tx})
+				r.Code, r.Data, r.GasW, r.GasU = res.Code, res.Data, res.GasWanted, res.GasUsed
+			case 3:
+				app.EndBlock(abci.RequestEndBlock{Height: o.Height})
+			case 4:
+				r.Hash = app.Commit().Data
+			}
+		}()
+		out[i] = r
+	}
+	return out
+}
